@@ -121,6 +121,8 @@ def overlay(prog, rep):
             rep.check(wrote in (None, B) and not rec, "OVERLAY", fi.short, "equal leaf", "left as is", f"equal leaves are rewritten as {wrote!r}", fi.loc(lp))
         elif present:
             rep.check(wrote == B and not rec, "OVERLAY", fi.short, "user overrides default", f"{a}[{k}] = {b}[{k}]", f"the user's value does not replace the default (`{a}[{k}]` := {wrote!r})", fi.loc(lp))
+        elif wrote is None and not rec:
+            rep.violation("OVERLAY", fi.short, cons[:90], f"a key of the user's document is skipped without being merged on the path {cons}: the user's setting (e.g. a falsy value such as 0, false or an empty table) silently loses against the default", fi.loc(lp), expected="every key of the second argument is copied, merged recursively, or equal already", found=cons)
         else:
             rep.undecided("OVERLAY", fi.short, cons[:90], "path without a membership test", fi.loc(lp))
     # the call in load_config_toml
@@ -255,6 +257,7 @@ VARIANTS = [
     ("B default key popped", C, "            elif a[key] == b[key]:\n                pass  # same leaf value", "            elif a[key] == b[key]:\n                a.pop(key)", "OVERLAY"),
     ("B first-run file is the live defaults", C, "            f.write(_comment_out_toml(default_config))", "            f.write(default_config)", "FIRST-RUN"),
     ("B headers commented out too", C, 'if line.strip() and not line.strip().startswith("[") else line', "if line.strip() else line", "FIRST-RUN"),
+    ("B falsy user values skipped", C, "    for key in b:\n        if key in a:", "    for key in b:\n        if not b[key]:\n            continue\n        if key in a:", "OVERLAY"),
     ("OK exists instead of isfile", C, "    if os.path.isfile(config_file_path):", "    if os.path.exists(config_file_path):", "ok"),
     ("OK inverted test", C, "    if os.path.isfile(config_file_path):\n        with open(config_file_path) as f:\n            config = f.read()\n        config_toml = tomlkit.parse(config)\n    else:\n        # If file doesn't exist, write with commented-out default config\n        with open(config_file_path, \"w\") as f:\n            f.write(_comment_out_toml(default_config))\n        config_toml = dict()\n", "    if not os.path.isfile(config_file_path):\n        with open(config_file_path, \"w\") as f:\n            f.write(_comment_out_toml(default_config))\n        config_toml = dict()\n    else:\n        with open(config_file_path) as f:\n            config = f.read()\n        config_toml = tomlkit.parse(config)\n", "ok"),
     ("OK equal-leaf branch removed", C, "            elif a[key] == b[key]:\n                pass  # same leaf value\n", "", "ok"),
